@@ -272,6 +272,89 @@ class Order:
                     changed = True
         return inn
 
+    def scope_of(self, fn):
+        """fn plus the non-public workspace functions of the same impl/module that it (transitively) calls:
+        the region a maintainer may move parts of fn's body into (private helpers)."""
+        P = self.P
+        prefix = fn.rsplit("::", 1)[0] + "::"
+        out = [fn]
+        seen = {fn}
+        work = [fn]
+        while work:
+            x = work.pop()
+            for _, t in P.bodies[x].calls():
+                kind, tg = P.resolve(t["callee"])
+                if kind != "ws":
+                    continue
+                for g in tg:
+                    gb = P.bodies[g]
+                    if g not in seen and g.startswith(prefix) and not gb.pub and gb.kind != "closure":
+                        seen.add(g)
+                        out.append(g)
+                        work.append(g)
+        return out
+
+    def calls_into(self, body, b, fns):
+        t = body.blocks[b]["term"]
+        if t["k"] != "call":
+            return False
+        kind, tg = self.P.resolve(t["callee"])
+        return kind == "ws" and any(g in fns for g in tg)
+
+    def after_failure(self, body, risky, target):
+        """target sites that can execute while the Result of a `risky` call is still unchecked or on its
+        failure edge (i.e. the target does not depend on the risky call having succeeded)."""
+        from program import forward, op_local
+        rs = set(self.sites(body, risky))
+        ts = self.sites(body, target)
+        if not rs or not ts:
+            return []
+        hit = set()
+
+        def transfer(b, st):
+            st = set(st)
+            blk = body.blocks[b]
+            for s in blk["stmts"]:
+                if s[0] == "assign" and s[2]["k"] == "use" and s[2]["ops"] and not s[1]["p"]:
+                    ol = op_local(s[2]["ops"][0])
+                    if ol in st:
+                        st.add(s[1]["l"])
+            t = blk["term"]
+            if t["k"] == "call":
+                if b in ts and b not in rs and st:
+                    hit.add(b)
+                nm = names(t)
+                dl = t["dest"]["l"] if not t["dest"]["p"] else None
+                if any("Try>::branch" in n for n in nm) and t["args"]:
+                    al = op_local(t["args"][0])
+                    if al in st and dl is not None:
+                        st.discard(al)
+                        st.add(dl)
+                elif b in rs and dl is not None and body.locals[dl]["ty"].startswith("core::result::Result<"):
+                    st.add(dl)
+            elif t["k"] == "switch":
+                dl = op_local(t["op"])
+                base = None
+                for d in body.defs().get(dl, []) if dl is not None else []:
+                    if d[0] == "assign" and d[3]["k"] == "discr" and not d[3]["place"]["p"]:
+                        base = d[3]["place"]["l"]
+                if base in st:
+                    rest = set(st)
+                    rest.discard(base)
+                    out = {}
+                    listed = {v for v, _ in t["targets"]}
+                    for v, tb in t["targets"]:
+                        out[tb] = frozenset(rest) if v == "0" else frozenset(rest | {"FAILED"})
+                    o = frozenset(rest | {"FAILED"}) if listed != {"1"} else frozenset(rest)
+                    if t["otherwise"] in out:
+                        o = out[t["otherwise"]] | o
+                    out[t["otherwise"]] = o
+                    return out
+            return frozenset(st)
+
+        forward(body, frozenset(), transfer, lambda a, b: a | b)
+        return sorted(hit)
+
     def can_reach(self, body, b, targets):
         """True iff some block in `targets` is reachable from the successors of b."""
         tset = set(targets)
